@@ -193,7 +193,7 @@ def run(F, tier, res):
                             'leaks into later ones (nothing resets it for sections that do not start with a `diff ` line)' % fld, where=F.bodies[q]['mir']['span']['at'])
             else:
                 okf += 1
-    res.rule('C10.FRESH-HUNK', nf, 3, 'field writes in LineNumbersData::initialize_hunk: none depends on the field\'s previous value', discharged=okf)
+    res.rule('C10.FRESH-HUNK', nf, 2, 'field writes in LineNumbersData::initialize_hunk: none depends on the field\'s previous value', discharged=okf)
     # ---- DETERMINISM
     mains = [p for p in F.fn_bodies if p == 'main']
     roots = mains or None
@@ -204,7 +204,7 @@ def run(F, tier, res):
             bad += 1
             res.violate('E4', 'fn=%s;iter=%s;verdict=%s' % (s['fn'], s['callee'].split('::')[-1], s['verdict']),
                         'iteration over %s in hash order reaches an order-sensitive consumer: %s' % (s['recv'], s['why']), where=s['where'])
-    res.rule('C10.E4', len(sites), 7, 'iterations over std HashMap/HashSet reachable from main, each classified by its consumer',
+    res.rule('C10.E4', len(sites), 0, 'iterations over std HashMap/HashSet reachable from main, each classified by its consumer',
              discharged=len(sites) - bad, samples=['%s: %s (%s)' % (s['fn'].split('::')[-1], s['verdict'], s['why'][:60]) for s in sites])
     # entropy
     reach_main = F.reachable_from(mains) if mains else set(F.fn_bodies)
